@@ -345,15 +345,6 @@ namespace Gtfs.Rt
 
 /-! non-vacuity: a concrete message meets the hypotheses of the two theorems above -/
 
-/-- a message with a trip update (trip "A", vehicle "V"), the position of vehicle "V" on trip "A",
-    and an alert informing trip "B" -/
-def demoMsg : Msg :=
-  { timestamp := some 100,
-    entities := [
-      { id := [49], tripUpdate := some { trip := some { tripId := some [65] }, vehicle := some { id := some [86] } } },
-      { id := [50], vehicle := some { trip := some { tripId := some [65] }, vehicle := some { id := some [86] } } },
-      { id := [51], alert := some { informed := [{ trip := some { tripId := some [66] } }] } } ] }
-
 example : ConflictFreeTrips .noExt (prepass .noExt demoMsg) :=
   conflictFreeTrips_of_nodup _ _ (by decide)
 example : ConflictFreeVehicles .noExt (prepass .noExt demoMsg) :=
